@@ -5,7 +5,11 @@
 #include <tao/pegtl/contrib/http.hpp>
 #include <tao/pegtl/contrib/integer.hpp>
 #include <tao/pegtl/contrib/json.hpp>
+#include <tao/pegtl/contrib/add_state.hpp>
+#include <tao/pegtl/contrib/control_action.hpp>
 #include <tao/pegtl/contrib/raw_string.hpp>
+#include <tao/pegtl/contrib/remove_first_state.hpp>
+#include <tao/pegtl/contrib/shuffle_states.hpp>
 
 #include <tao/pegtl/must_if.hpp>
 
@@ -63,7 +67,9 @@ namespace sim::io
    struct st_off : pegtl::seq< pegtl::one< '{' >, pegtl::disable< w_css< 0 > >, pegtl::opt< w_css< 1 > >, pegtl::one< '}' > > {};
    struct st_rule : pegtl::seq< pegtl::one< '<' >, pegtl::state< dstate, word >, pegtl::one< '>' > > {};
    struct st_not : pegtl::seq< pegtl::one< '!' >, pegtl::not_at< w_cs< 2 >, pegtl::one< '?' > >, pegtl::opt< w_cs< 2 > > > {};
-   struct g_states : pegtl::until< pegtl::eof, pegtl::sor< st_on, st_at, st_off, st_rule, st_not, pegtl::one< ' ' > > > {};
+   template< int K > struct w_as : pegtl::seq< word > {};   // add_state< dstate >
+   struct st_add : pegtl::seq< pegtl::one< '+' >, w_as< 0 >, pegtl::opt< pegtl::one< '+' >, pegtl::at< w_as< 1 > >, pegtl::disable< w_as< 2 > > > > {};
+   struct g_states : pegtl::until< pegtl::eof, pegtl::sor< st_on, st_at, st_off, st_rule, st_not, st_add, pegtl::one< ' ' > > > {};
    // 7: a must_if< Errors >::control layered on the recording control: rules with a custom message raise on ANY local
    //    failure (mi_raise_*), except the one that opts out per rule (mi_msg_b: message used only under must<>)
    struct mi_raise_a : pegtl::one< 'a' > {};
@@ -89,6 +95,147 @@ namespace sim::io
    struct mi_mustc : pegtl::seq< pegtl::one< '<' >, pegtl::must< mi_plain_c >, pegtl::one< '>' > > {};
    struct mi_look : pegtl::seq< pegtl::one< '?' >, pegtl::at< mi_msg_b >, mi_msg_b > {};
    struct g_mustif : pegtl::until< pegtl::eof, pegtl::sor< mi_group, mi_hash, mi_optb, mi_mustb, mi_mustc, mi_look, pegtl::one< ' ' > > > {};
+   // 8: contrib control adaptors (remove_first_state, rotate_states_right / _left, reverse_states) layered on a
+   //    recording control that knows in which order it must receive the states, and actions derived from
+   //    control_action, whose own start / success / failure / unwind hooks must form the same balanced protocol
+   struct tag_a {};
+   struct tag_b {};
+   template< typename T >
+   constexpr unsigned st_code()
+   {
+      using U = std::decay_t< T >;
+      if constexpr( std::is_same_v< U, tag_a > ) {
+         return 1;
+      }
+      else if constexpr( std::is_base_of_v< sim_state, U > ) {
+         return 2;
+      }
+      else if constexpr( std::is_same_v< U, tag_b > ) {
+         return 3;
+      }
+      else {
+         return 9;
+      }
+   }
+   template< typename... St >
+   constexpr unsigned st_sig()
+   {
+      unsigned s = 0;
+      ( ( s = s * 10 + st_code< St >() ), ... );
+      return s;
+   }
+   // recording control of family 3 (has unwind) that checks the order of the states it is handed
+   template< typename Rule, unsigned Sig >
+   struct exp_ctl
+      : ctl_impl< Rule, 3 >
+   {
+      using base = ctl_impl< Rule, 3 >;
+      template< typename In, typename... St >
+      static void order( const In& in )
+      {
+         if constexpr( st_sig< St... >() != Sig ) {
+            soft_violation( 8, st_sig< St... >(), snap( in ) );
+         }
+      }
+      template< typename In, typename... St >
+      static void start( const In& in, St&&... st )
+      {
+         order< In, St... >( in );
+         base::start( in, st... );
+      }
+      template< typename In, typename... St >
+      static void success( const In& in, St&&... st )
+      {
+         order< In, St... >( in );
+         base::success( in, st... );
+      }
+      template< typename In, typename... St >
+      static void failure( const In& in, St&&... st )
+      {
+         order< In, St... >( in );
+         base::failure( in, st... );
+      }
+      template< typename In, typename... St >
+      static void unwind( const In& in, St&&... st )
+      {
+         order< In, St... >( in );
+         log_event( Ev::UNWIND, rid< Rule >(), 0, 0, 3, snap( in ), sid_of( st... ) );
+      }
+      template< typename In, typename... St >
+      [[noreturn]] static void raise( const In& in, St&&... st )
+      {
+         order< In, St... >( in );
+         base::raise( in, st... );
+      }
+      template< template< typename... > class Action, typename Iterator, typename In, typename... St >
+      static auto apply( const Iterator& begin, const In& in, St&&... st )
+         -> decltype( base::template apply< Action >( begin, in, st... ) )
+      {
+         order< In, St... >( in );
+         return base::template apply< Action >( begin, in, st... );
+      }
+      template< template< typename... > class Action, typename In, typename... St >
+      static auto apply0( const In& in, St&&... st )
+         -> decltype( base::template apply0< Action >( in, st... ) )
+      {
+         order< In, St... >( in );
+         return base::template apply0< Action >( in, st... );
+      }
+   };
+   // the run starts with the states ( tag_a, sim_state, tag_b ) = 123
+   template< typename Rule > struct adapt_rfs : pegtl::remove_first_state< exp_ctl< Rule, 23 > > {};
+   template< typename Rule > struct adapt_rr : pegtl::rotate_states_right< exp_ctl< Rule, 312 > > {};
+   template< typename Rule > struct adapt_rl : pegtl::rotate_states_left< exp_ctl< Rule, 231 > > {};
+   template< typename Rule > struct adapt_rev : pegtl::reverse_states< exp_ctl< Rule, 321 > > {};
+   template< typename Rule > struct adapt_rr2 : pegtl::rotate_states_right< exp_ctl< Rule, 231 >, 2 > {};
+
+   struct hk_word : pegtl::plus< pegtl::alpha > {};    // void apply
+   struct hk_num : pegtl::plus< pegtl::digit > {};     // bool apply
+   struct hk_dot : pegtl::one< '.' > {};               // void apply0
+   struct hk_bang : pegtl::one< '!' > {};              // bool apply0
+   struct hk_item : pegtl::sor< hk_word, hk_num, hk_dot, hk_bang > {};
+   struct hk_body : pegtl::seq< pegtl::star< hk_item >, pegtl::opt< pegtl::one< '?' >, pegtl::must< hk_num > >, pegtl::not_at< pegtl::one< '#' > > > {};   // fails locally in front of '#'
+   template< int K > struct hk_ca : pegtl::seq< hk_body > {};   // action derived from control_action: K = 0 with unwind(), 1 without
+   struct hk_rfs : pegtl::seq< pegtl::one< '(' >, pegtl::control< adapt_rfs, hk_ca< 0 > >, pegtl::one< ')' > > {};
+   struct hk_rr : pegtl::seq< pegtl::one< '[' >, pegtl::control< adapt_rr, hk_ca< 1 > >, pegtl::one< ']' > > {};
+   struct hk_rl : pegtl::seq< pegtl::one< '{' >, pegtl::control< adapt_rl, hk_body >, pegtl::one< '}' > > {};
+   struct hk_rev : pegtl::seq< pegtl::one< '<' >, pegtl::control< adapt_rev, pegtl::try_catch_return_false< hk_ca< 0 > > >, pegtl::one< '>' > > {};
+   struct hk_rr2 : pegtl::seq< pegtl::one< '|' >, pegtl::control< adapt_rr2, hk_body >, pegtl::one< '|' > > {};
+   struct hk_plain : pegtl::seq< pegtl::one< '/' >, hk_ca< 0 >, pegtl::one< '/' > > {};
+   struct hk_look : pegtl::seq< pegtl::one< '@' >, pegtl::at< hk_ca< 1 > >, pegtl::opt< pegtl::one< '@' >, pegtl::disable< hk_ca< 0 > > >, hk_ca< 1 >, pegtl::one< '@' > > {};
+   struct hk_safe : pegtl::try_catch_any_return_false< pegtl::sor< hk_rfs, hk_rr, hk_rl, hk_rev, hk_rr2, hk_plain, hk_look > > {};
+   struct g_hooks : pegtl::until< pegtl::eof, pegtl::sor< hk_safe, pegtl::seq< pegtl::one< '$' >, pegtl::sor< hk_rfs, hk_rr, hk_plain > >, pegtl::any > > {};
+
+   template< int K >
+   struct ca_hooks
+      : pegtl::control_action
+   {
+      static constexpr int family = 1;
+      template< typename In, typename... St >
+      static void start( const In& in, St&&... st )
+      {
+         log_event( Ev::CA_START, rid< hk_ca< K > >(), 0, 1, 0, snap( in ), sid_of( st... ) );
+      }
+      template< typename In, typename... St >
+      static void success( const In& in, St&&... st )
+      {
+         log_event( Ev::CA_SUCCESS, rid< hk_ca< K > >(), 0, 1, 0, snap( in ), sid_of( st... ) );
+      }
+      template< typename In, typename... St >
+      static void failure( const In& in, St&&... st )
+      {
+         log_event( Ev::CA_FAILURE, rid< hk_ca< K > >(), 0, 1, 0, snap( in ), sid_of( st... ) );
+      }
+   };
+   struct ca_hooks_unwind
+      : ca_hooks< 0 >
+   {
+      template< typename In, typename... St >
+      static void unwind( const In& in, St&&... st )
+      {
+         log_event( Ev::CA_UNWIND, rid< hk_ca< 0 > >(), 0, 1, 0, snap( in ), sid_of( st... ) );
+      }
+   };
    // clang-format on
 }  // namespace sim::io
 
@@ -106,6 +253,21 @@ namespace sim
          s.success( in, outer... );
       }
    };
+   template< int K > struct sim_action< io::w_as< K > > : pegtl::add_state< io::dstate >
+   {
+      static constexpr int family = 1;
+      template< typename In, typename... Outer >
+      static void success( const In& in, io::dstate& s, Outer&&... outer )
+      {
+         s.success( in, outer... );
+      }
+   };
+   template<> struct sim_action< io::hk_ca< 0 > > : io::ca_hooks_unwind {};
+   template<> struct sim_action< io::hk_ca< 1 > > : io::ca_hooks< 1 > {};
+   template<> inline constexpr int action_kind_1< io::hk_word > = 1;
+   template<> inline constexpr int action_kind_1< io::hk_num > = 2;
+   template<> inline constexpr int action_kind_1< io::hk_dot > = 3;
+   template<> inline constexpr int action_kind_1< io::hk_bang > = 4;
    template<> inline constexpr int action_kind_1< io::word > = 1;
    template<> inline constexpr int action_kind_1< io::number > = 1;
    template<> inline constexpr int action_kind_1< io::ident > = 1;
